@@ -4,13 +4,19 @@
    A request has   groups : format strings that come with their values,
                    ro     : an optional trailing read-only format (no values),
                    data   : optional raw data, given as bytes or as a count of zero bytes.
-   A format string is modelled as a sequence of fields [c, n]:
-       "B" / "H" / "I"  unsigned integers of 1 / 2 / 4 bytes (n = 1),
-       "x"              n pad bytes (carry no value),
-       "s"              a byte string of n bytes.
-   Packing is little-endian without alignment ("<"): fields simply follow each other.
-   Integers are written as two 16-bit limbs <<lo, hi>> (value lo + 65536 hi), because a TLC
-   integer has 32 bits; byte strings are sequences of 0 .. 255.
+   A format string is a sequence of fields [c, n] with the codes of Python's struct module in
+   little-endian standard mode ("<": standard sizes, no alignment):
+       B H I L Q   unsigned integers of 1 2 4 4 8 bytes      b h i l q   signed (two's complement)
+       e f d       IEEE 754 binary16 / binary32 / binary64   ?           bool, one byte 0 / 1
+       c           one byte                                   x           n pad bytes (no value)
+       s           byte string of n bytes (padded with zeros / cut)
+       p           Pascal string in n bytes: length byte, then the bytes, padded with zeros
+   Values and decoded items have one shape [t, lo, hi, b] (a TLC integer has only 32 bits):
+       "int"    lo = 1 iff negative, b = magnitude as four 16-bit limbs, least significant first
+       "float"  lo = sign, b = the significant bits from the leading 1 to the last 1,
+                hi = exponent of the leading bit:  value = (-1)^lo * 1.b2b3.. * 2^hi
+       "fzero" / "finf"  lo = sign          "fnan"  not-a-number (payload not compared)
+       "bool"   lo = 0 / 1                  "bytes" b = the bytes
 
    Payload  = encodings of the valued formats, zeros for the read-only format, then the raw
               data (the bytes, or that many zeros).
@@ -19,25 +25,98 @@
 EXTENDS Integers, Sequences, TLC
 
 Zeros(n) == [i \in 1 .. n |-> 0]
-LE16(v) == <<v % 256, (v \div 256) % 256>>
+Ones(n) == [i \in 1 .. n |-> 1]
 Take(s, n) == SubSeq(s, 1, n)
+Item(t, lo, hi, b) == [t |-> t, lo |-> lo, hi |-> hi, b |-> b]
+IntItem(neg, limbs) == Item("int", neg, 0, limbs)
+BytesItem(b) == Item("bytes", 0, 0, b)
 
-FieldSize(f) == CASE f.c = "B" -> 1 [] f.c = "H" -> 2 [] f.c = "I" -> 4
-                  [] f.c = "x" -> f.n [] f.c = "s" -> f.n
+UnsignedCodes == {"B", "H", "I", "L", "Q"}
+SignedCodes == {"b", "h", "i", "l", "q"}
+IntCodes == UnsignedCodes \cup SignedCodes
+FloatCodes == {"e", "f", "d"}
+FieldSize(f) == CASE f.c \in {"B", "b", "?", "c"} -> 1 [] f.c \in {"H", "h", "e"} -> 2
+                  [] f.c \in {"I", "i", "L", "l", "f"} -> 4 [] f.c \in {"Q", "q", "d"} -> 8
+                  [] f.c \in {"x", "s", "p"} -> f.n
 HasValue(f) == f.c # "x"
+ExpBits(c) == CASE c = "e" -> 5 [] c = "f" -> 8 [] c = "d" -> 11
+FracBits(c) == CASE c = "e" -> 10 [] c = "f" -> 23 [] c = "d" -> 52
+Bias(c) == CASE c = "e" -> 15 [] c = "f" -> 127 [] c = "d" -> 1023
 
 RECURSIVE FmtSizeFrom(_, _)
 FmtSizeFrom(fmt, i) == IF i > Len(fmt) THEN 0 ELSE FieldSize(fmt[i]) + FmtSizeFrom(fmt, i + 1)
 FmtSize(fmt) == FmtSizeFrom(fmt, 1)
 
-(* a value fits its field *)
-ValueOK(f, v) == CASE f.c = "B" -> v[1] \in 0 .. 255 /\ v[2] = 0
-                   [] f.c = "H" -> v[1] \in 0 .. 65535 /\ v[2] = 0
-                   [] f.c = "I" -> v[1] \in 0 .. 65535 /\ v[2] \in 0 .. 65535
-                   [] f.c = "s" -> Len(v) = f.n /\ \A i \in 1 .. Len(v) : v[i] \in 0 .. 255
+(* ---- bits, bytes and limbs --------------------------------------------------------------- *)
+Pow2(k) == 2 ^ k                                               \* k <= 16 here
+ToBits(v, w) == [i \in 1 .. w |-> (v \div Pow2(w - i)) % 2]    \* most significant bit first
+RECURSIVE FromBitsAcc(_, _, _)
+FromBitsAcc(bs, i, acc) == IF i > Len(bs) THEN acc ELSE FromBitsAcc(bs, i + 1, 2 * acc + bs[i])
+FromBits(bs) == FromBitsAcc(bs, 1, 0)                          \* Len(bs) <= 16
+(* w little-endian bytes <-> 8w bits, most significant first *)
+BitsToBytes(bits, w) == [k \in 1 .. w |-> FromBits(SubSeq(bits, 8 * (w - k) + 1, 8 * (w - k) + 8))]
+BytesToBits(by) == [i \in 1 .. 8 * Len(by) |->
+                      ToBits(by[Len(by) - ((i - 1) \div 8)], 8)[((i - 1) % 8) + 1]]
+RECURSIVE StripTrailing(_)
+StripTrailing(bs) == IF Len(bs) = 0 \/ bs[Len(bs)] = 1 THEN bs
+                     ELSE StripTrailing(SubSeq(bs, 1, Len(bs) - 1))
+RECURSIVE LeadingZeros(_, _)
+LeadingZeros(bs, i) == IF i > Len(bs) \/ bs[i] = 1 THEN i - 1 ELSE LeadingZeros(bs, i + 1)
+AllZero(s) == \A i \in 1 .. Len(s) : s[i] = 0
 
-(* ---- encoding ---------------------------------------------------------------------------- *)
-EncField(f, v) == IF f.c = "s" THEN v ELSE Take(LE16(v[1]) \o LE16(v[2]), FieldSize(f))
+LimbsToBytes(l) == [k \in 1 .. 8 |-> IF k % 2 = 1 THEN l[(k + 1) \div 2] % 256
+                                                 ELSE l[k \div 2] \div 256]
+BytesToLimbs(by) == [k \in 1 .. 4 |-> by[2 * k - 1] + 256 * by[2 * k]]
+RECURSIVE TwosFrom(_, _, _, _)
+TwosFrom(l, i, carry, acc) ==          \* 2^64 - l, limb by limb
+    IF i > 4 THEN acc
+    ELSE TwosFrom(l, i + 1, ((65535 - l[i]) + carry) \div 65536,
+                  Append(acc, ((65535 - l[i]) + carry) % 65536))
+TwosComp(l) == TwosFrom(l, 1, 1, <<>>)
+
+(* ---- which values a field can carry ------------------------------------------------------- *)
+IntFits(c, v) == LET by == LimbsToBytes(v.b)  w == FieldSize([c |-> c, n |-> 1]) IN
+    /\ Len(v.b) = 4 /\ \A i \in 1 .. 4 : v.b[i] \in 0 .. 65535
+    /\ AllZero(SubSeq(by, w + 1, 8))
+    /\ c \in UnsignedCodes => v.lo = 0
+    /\ c \in SignedCodes /\ v.lo = 0 => by[w] < 128
+    /\ c \in SignedCodes /\ v.lo = 1 =>
+          /\ ~AllZero(by)
+          /\ by[w] < 128 \/ (by[w] = 128 /\ AllZero(SubSeq(by, 1, w - 1)))
+(* floats: exactly representable normal numbers, zeros and infinities (no rounding demanded) *)
+FloatFits(c, v) == \/ v.t \in {"fzero", "finf"} /\ v.lo \in {0, 1}
+                   \/ /\ v.t = "float" /\ v.lo \in {0, 1}
+                      /\ Len(v.b) >= 1 /\ v.b[1] = 1 /\ v.b[Len(v.b)] = 1
+                      /\ Len(v.b) - 1 <= FracBits(c)
+                      /\ v.hi >= 1 - Bias(c) /\ v.hi <= Bias(c)
+ValueOK(f, v) == CASE f.c \in IntCodes -> v.t = "int" /\ v.lo \in {0, 1} /\ IntFits(f.c, v)
+                   [] f.c \in FloatCodes -> FloatFits(f.c, v)
+                   [] f.c = "?" -> v.t = "bool" /\ v.lo \in {0, 1}
+                   [] f.c = "c" -> v.t = "bytes" /\ Len(v.b) = 1
+                   [] f.c \in {"s", "p"} -> v.t = "bytes"
+(* a value that comes back unchanged when its own encoding is decoded *)
+Canonical(f, v) == CASE f.c = "s" -> Len(v.b) = f.n
+                     [] f.c = "p" -> Len(v.b) <= f.n - 1 /\ Len(v.b) <= 255
+                     [] OTHER -> TRUE
+
+(* ---- encoding ------------------------------------------------------------------------------ *)
+EncInt(f, v) == Take(LimbsToBytes(IF v.lo = 1 THEN TwosComp(v.b) ELSE v.b), FieldSize(f))
+EncFloat(f, v) ==
+    BitsToBytes(CASE v.t = "fzero" -> <<v.lo>> \o Zeros(ExpBits(f.c) + FracBits(f.c))
+                  [] v.t = "finf" -> <<v.lo>> \o Ones(ExpBits(f.c)) \o Zeros(FracBits(f.c))
+                  [] v.t = "float" -> <<v.lo>> \o ToBits(v.hi + Bias(f.c), ExpBits(f.c))
+                                      \o SubSeq(v.b, 2, Len(v.b))
+                                      \o Zeros(FracBits(f.c) - (Len(v.b) - 1)),
+                FieldSize(f))
+MinOf(a, b) == IF a < b THEN a ELSE b
+EncField(f, v) ==
+    CASE f.c \in IntCodes -> EncInt(f, v)
+      [] f.c \in FloatCodes -> EncFloat(f, v)
+      [] f.c = "?" -> <<v.lo>>
+      [] f.c = "c" -> v.b
+      [] f.c = "s" -> Take(v.b \o Zeros(f.n), f.n)
+      [] f.c = "p" -> LET k == MinOf(MinOf(Len(v.b), f.n - 1), 255) IN
+                      Take(<<k>> \o Take(v.b, k) \o Zeros(f.n), f.n)
 
 RECURSIVE EncFmt(_, _, _, _, _)
 EncFmt(fmt, i, vals, j, acc) ==          \* field i takes value j unless it is padding
@@ -58,20 +137,31 @@ RawOut(data) == CASE data.kind = "none" -> <<>>
 Payload(req) == EncGroups(req.groups, 1, <<>>)
                 \o (IF req.ro.present THEN Zeros(FmtSize(req.ro.fmt)) ELSE <<>>)
                 \o RawOut(req.data)
-
-(* ---- decoding ---------------------------------------------------------------------------- *)
+(* ---- decoding ------------------------------------------------------------------------------ *)
 RECURSIVE CatFmts(_, _, _)
 CatFmts(groups, g, acc) == IF g > Len(groups) THEN acc
                            ELSE CatFmts(groups, g + 1, acc \o groups[g].fmt)
 AllFields(req) == CatFmts(req.groups, 1, <<>>) \o (IF req.ro.present THEN req.ro.fmt ELSE <<>>)
 
-IntItem(lo, hi) == [t |-> "int", lo |-> lo, hi |-> hi, b |-> <<>>]
-BytesItem(b) == [t |-> "bytes", lo |-> 0, hi |-> 0, b |-> b]
+DecInt(f, by) ==            \* by: the field's bytes
+    IF f.c \in SignedCodes /\ by[Len(by)] >= 128
+    THEN IntItem(1, TwosComp(BytesToLimbs(by \o [i \in 1 .. 8 - Len(by) |-> 255])))
+    ELSE IntItem(0, BytesToLimbs(by \o Zeros(8 - Len(by))))
+DecFloatBits(c, s, E, F) ==     \* sign, biased exponent, fraction bits
+    IF E = Pow2(ExpBits(c)) - 1 THEN (IF AllZero(F) THEN Item("finf", s, 0, <<>>)
+                                                    ELSE Item("fnan", 0, 0, <<>>))
+    ELSE IF E = 0 THEN (IF AllZero(F) THEN Item("fzero", s, 0, <<>>)
+                        ELSE Item("float", s, (1 - Bias(c)) - (LeadingZeros(F, 1) + 1),   \* subnormal
+                                  StripTrailing(SubSeq(F, LeadingZeros(F, 1) + 1, Len(F)))))
+    ELSE Item("float", s, E - Bias(c), StripTrailing(<<1>> \o F))
+DecFloat(f, bits) == DecFloatBits(f.c, bits[1], FromBits(SubSeq(bits, 2, ExpBits(f.c) + 1)),
+                                  SubSeq(bits, ExpBits(f.c) + 2, Len(bits)))
 DecField(f, r, o) ==        \* field f read at 0-based offset o of r
-    CASE f.c = "B" -> IntItem(r[o + 1], 0)
-      [] f.c = "H" -> IntItem(r[o + 1] + 256 * r[o + 2], 0)
-      [] f.c = "I" -> IntItem(r[o + 1] + 256 * r[o + 2], r[o + 3] + 256 * r[o + 4])
-      [] f.c = "s" -> BytesItem(SubSeq(r, o + 1, o + f.n))
+    CASE f.c \in IntCodes -> DecInt(f, SubSeq(r, o + 1, o + FieldSize(f)))
+      [] f.c \in FloatCodes -> DecFloat(f, BytesToBits(SubSeq(r, o + 1, o + FieldSize(f))))
+      [] f.c = "?" -> Item("bool", IF r[o + 1] = 0 THEN 0 ELSE 1, 0, <<>>)
+      [] f.c \in {"c", "s"} -> BytesItem(SubSeq(r, o + 1, o + FieldSize(f)))
+      [] f.c = "p" -> BytesItem(SubSeq(r, o + 2, o + 1 + MinOf(r[o + 1], f.n - 1)))
 
 RECURSIVE DecFields(_, _, _, _, _)
 DecFields(fs, i, r, o, acc) ==
@@ -85,37 +175,45 @@ Decoded(req, r) ==
     \o (IF req.data.kind = "none" THEN <<>>
         ELSE <<BytesItem(SubSeq(r, FmtSize(AllFields(req)) + 1, Len(r)))>>)
 
-(* the items a request's own values and raw data would decode to: what comes back when the
-   response is the payload itself                                                            *)
-RECURSIVE ValItems(_, _, _, _, _)
-ValItems(fmt, i, vals, j, acc) ==
-    IF i > Len(fmt) THEN acc
-    ELSE IF ~HasValue(fmt[i]) THEN ValItems(fmt, i + 1, vals, j, acc)
-         ELSE ValItems(fmt, i + 1, vals, j + 1,
-                       Append(acc, IF fmt[i].c = "s" THEN BytesItem(vals[j])
-                                   ELSE IntItem(vals[j][1], vals[j][2])))
-RECURSIVE GroupItems(_, _, _)
-GroupItems(groups, g, acc) ==
-    IF g > Len(groups) THEN acc
-    ELSE GroupItems(groups, g + 1, acc \o ValItems(groups[g].fmt, 1, groups[g].vals, 1, <<>>))
-ZeroItem(f) == IF f.c = "s" THEN BytesItem(Zeros(f.n)) ELSE IntItem(0, 0)
+(* ---- the round trip ------------------------------------------------------------------------ *)
+RECURSIVE GroupVals(_, _, _)
+GroupVals(groups, g, acc) == IF g > Len(groups) THEN acc
+                             ELSE GroupVals(groups, g + 1, acc \o groups[g].vals)
+ZeroItem(f) == CASE f.c \in IntCodes -> IntItem(0, Zeros(4))
+                 [] f.c \in FloatCodes -> Item("fzero", 0, 0, <<>>)
+                 [] f.c = "?" -> Item("bool", 0, 0, <<>>)
+                 [] f.c \in {"c", "s"} -> BytesItem(Zeros(FieldSize(f)))
+                 [] f.c = "p" -> BytesItem(<<>>)
 RECURSIVE ZeroItems(_, _, _)
 ZeroItems(fmt, i, acc) == IF i > Len(fmt) THEN acc
                           ELSE ZeroItems(fmt, i + 1, IF HasValue(fmt[i])
                                                      THEN Append(acc, ZeroItem(fmt[i])) ELSE acc)
-Echo(req) == GroupItems(req.groups, 1, <<>>)
+(* what comes back when the response is the payload itself: the values, zeros, the raw data *)
+Echo(req) == GroupVals(req.groups, 1, <<>>)
              \o (IF req.ro.present THEN ZeroItems(req.ro.fmt, 1, <<>>) ELSE <<>>)
              \o (IF req.data.kind = "none" THEN <<>> ELSE <<BytesItem(RawOut(req.data))>>)
 
-(* the round trip: decoding one's own payload gives back the values, zeros for the read-only
+RECURSIVE ValsOK(_, _, _, _, _)
+ValsOK(fmt, i, vals, j, canon) ==       \* every value fits its field (and is canonical)
+    IF i > Len(fmt) THEN j = Len(vals) + 1
+    ELSE IF ~HasValue(fmt[i]) THEN ValsOK(fmt, i + 1, vals, j, canon)
+         ELSE /\ j <= Len(vals) /\ ValueOK(fmt[i], vals[j])
+              /\ canon => Canonical(fmt[i], vals[j])
+              /\ ValsOK(fmt, i + 1, vals, j + 1, canon)
+ReqOK(req, canon) == \A g \in 1 .. Len(req.groups) :
+                        ValsOK(req.groups[g].fmt, 1, req.groups[g].vals, 1, canon)
+
+(* decoding one's own payload gives back the (canonical) values, zeros for the read-only
    format and the raw data                                                                   *)
-RoundTrip(req) == /\ Len(Payload(req)) = FmtSize(AllFields(req)) + Len(RawOut(req.data))
+RoundTrip(req) == /\ ReqOK(req, TRUE)
+                  /\ Len(Payload(req)) = FmtSize(AllFields(req)) + Len(RawOut(req.data))
                   /\ Decoded(req, Payload(req)) = Echo(req)
 
 (* ---- the request as an action pair ------------------------------------------------------- *)
 (* Send: the bytes put into the send queue.  Return: the value handed back for response r.
-   Without any format the raw response may come back bare instead of as a 1-tuple.           *)
-SendOK(req, out) == out = Payload(req)
+   Without any format the raw response may come back bare instead of as a 1-tuple.
+   Both are demanded for requests whose values fit their fields (ReqOK).                     *)
+SendOK(req, out) == ReqOK(req, FALSE) /\ out = Payload(req)
 ReturnOK(req, r, shape, items) ==
     /\ Len(r) = Len(Payload(req))
     /\ items = Decoded(req, r)
